@@ -54,7 +54,7 @@ theorem sigRel_of_res (δ : Nat) (r : Except Err Unit) : SigRel δ 0 (sigOf r) (
   | .error e => exact rfl
 
 section
-variable {env : Env κ} {inpS inpW : Bytes} {δ : Nat} {K : Nat → κ → κ → Prop} {Loc : κ → Nat → Prop}
+variable {env : Env κ} {inpS inpW : Bytes} {δ : Nat} {K : Nat → κ → κ → Prop} {Loc : κ → Nat → Nat → TextType → Prop}
 
 /-- all lexer validity flags off -/
 def Ab.noLex (ab : Ab) : Prop :=
@@ -124,7 +124,7 @@ theorem lexEmitText_sim (hops : OpsSim env.ops inpS inpW δ K Loc) {d : Nat} {ab
     {ls lw : LexRegs} {xs xw : Ctx κ}
     (hc : CRel δ 0 cs cw) (hl : LexRel δ d ab cs.nextPos ls lw) (hP : ab.P = true)
     (hsim : xw.sim = xs.sim) (hpc : xs.prevConsumed = xw.prevConsumed + δ) (hK : K d xs.sink xw.sink)
-    (hloc : 0 < d → Loc xs.sink ls.lexemeStart)
+    (hloc : 0 < d → Loc xs.sink xs.prevConsumed ls.lexemeStart cs.lastTextType)
     (hn : ab'.noLex) :
     ActSim δ K ab' true (lexEmitText env inpS cs ls xs) (lexEmitText env inpW cw lw xw) := by
   have hp := hl.p hP
@@ -147,7 +147,7 @@ theorem lexEmitText_sim (hops : OpsSim env.ops inpS inpW δ K Loc) {d : Nat} {ab
     rw [if_pos (show cw.pos > lw.lexemeStart by omega)]
     have e1 : lw.lexemeStart + d - δ = ls.lexemeStart := by omega
     have hop := hops.text xw.prevConsumed lw.lexemeStart cw.pos d cw.lastTextType xs.sink xw.sink hK
-      (by rw [e1]; exact hloc hd0) hd0 (by omega) (by omega)
+      (by rw [e1, ← hpc, hc.lastTextType]; exact hloc hd0) hd0 (by omega) (by omega)
     have e2 : cw.pos - δ = cs.pos := by omega
     rw [e1, e2, ← hpc, hc.lastTextType] at hop
     rw [lexEmitNonTag_eq env inpW, hc.lastTextType]
